@@ -1214,6 +1214,116 @@ def translate_resources_by_hrefs(repo=REPO):
         f"  resources_by_hrefs_loop2 lookup {d} ({d}.map Prod.fst) out__\n")
 
 
+# ---------------------------------------------------------------------------
+# how a store exception becomes an HTTP answer: the `except` tables of web.py (set_body, create_member)
+# and of the PUT / POST handlers of webdav.py, in the order they are written
+
+def _find_method(tree, cls, name):
+    c = next((n for n in tree.body if isinstance(n, ast.ClassDef) and n.name == cls), None)
+    f = next((n for n in (c.body if c else []) if isinstance(n, (ast.FunctionDef, ast.AsyncFunctionDef)) and n.name == name), None)
+    if f is None:
+        raise Untranslatable(f"{cls}.{name} not found")
+    return f
+
+
+def _try_calling(fn, attr):
+    """the `try` statement of `fn` whose body calls `.<attr>(…)` (or passes `.<attr>` to to_thread)"""
+    for node in ast.walk(fn):
+        if isinstance(node, ast.Try):
+            src = "\n".join(ast.unparse(b) for b in node.body)
+            if "." + attr in src:
+                return node
+    raise Untranslatable(f"no try around {attr} in {fn.name}")
+
+
+def _inner_table(tr):
+    rows = []
+    for h in tr.handlers:
+        if not (isinstance(h.type, ast.Name) and len(h.body) == 1 and isinstance(h.body[0], ast.Raise)
+                and isinstance(h.body[0].exc, ast.Call)):
+            raise Untranslatable("except clause shape (inner)")
+        call = h.body[0].exc
+        raised = ast.unparse(call.func).split(".")[-1]
+        pre = ""
+        if raised == "PreconditionFailure":
+            a0 = call.args[0] if call.args else None
+            # "{%s}NAME" % caldav.NAMESPACE
+            if not (isinstance(a0, ast.BinOp) and isinstance(a0.op, ast.Mod) and isinstance(a0.left, ast.Constant)
+                    and isinstance(a0.left.value, str) and a0.left.value.startswith("{%s}")):
+                raise Untranslatable("precondition name shape")
+            pre = a0.left.value[len("{%s}"):]
+        elif call.args or call.keywords:
+            raise Untranslatable("raised exception takes arguments")
+        rows.append((h.type.id, raised, pre))
+    return rows
+
+
+def _outer_table(tr):
+    rows = []
+    for h in tr.handlers:
+        if not (isinstance(h.type, ast.Name) and len(h.body) == 1 and isinstance(h.body[0], ast.Return)
+                and isinstance(h.body[0].value, ast.Call)):
+            raise Untranslatable("except clause shape (outer)")
+        call = h.body[0].value
+        f = ast.unparse(call.func)
+        if f == "Response":
+            st = next((kw.value.value for kw in call.keywords if kw.arg == "status" and isinstance(kw.value, ast.Constant)), None)
+            if st is None:
+                raise Untranslatable("Response without a literal status")
+            ans = str(st).split(" ")[0]
+        elif f == "_send_simple_dav_error":
+            st = call.args[1].value if len(call.args) > 1 and isinstance(call.args[1], ast.Constant) else ""
+            err = next((ast.unparse(kw.value) for kw in call.keywords if kw.arg == "error"), "")
+            if not str(st).startswith("412") or err != f"ET.Element({h.name}.precondition)":
+                raise Untranslatable("dav error shape")
+            ans = "dav412"
+        elif f == "_send_method_not_allowed":
+            ans = "405"
+        else:
+            raise Untranslatable(f"answer {f}")
+        rows.append((h.type.id, ans))
+    return rows
+
+
+def translate_exception_tables(repo=REPO):
+    web = ast.parse(open(os.path.join(repo, "xandikos/web.py"), encoding="utf-8").read())
+    dav = ast.parse(open(os.path.join(repo, "xandikos/webdav.py"), encoding="utf-8").read())
+    store = ast.parse(open(os.path.join(repo, "xandikos/store/__init__.py"), encoding="utf-8").read())
+    bases = []
+    for tree in (store, dav):
+        for n in tree.body:
+            if isinstance(n, ast.ClassDef) and len(n.bases) == 1 and isinstance(n.bases[0], ast.Name) \
+                    and (n.name.endswith("Error") or n.name in ("NoSuchItem", "InvalidETag", "InvalidCTag", "InvalidFileContents",
+                                                              "PreconditionFailure", "InsufficientStorage", "ResourceLocked")):
+                bases.append((n.name, n.bases[0].id))
+    inner_set = _inner_table(_try_calling(_find_method(web, "ObjectResource", "set_body"), "import_one"))
+    inner_create = _inner_table(_try_calling(_find_method(web, "StoreBasedCollection", "create_member"), "import_one"))
+    put = _find_method(dav, "PutMethod", "handle")
+    outer_update = _outer_table(_try_calling(put, "set_body"))
+    outer_create = _outer_table(_try_calling(put, "create_member"))
+    outer_post = _outer_table(_try_calling(_find_method(dav, "PostMethod", "handle"), "create_member"))
+
+    def t3(rows):
+        return "[" + ", ".join(f'("{a}", "{b}", "{c}")' for a, b, c in rows) + "]"
+
+    def t2(rows):
+        return "[" + ", ".join(f'("{a}", "{b}")' for a, b in rows) + "]"
+    return (
+        "/-- exception classes and their base class (`xandikos/store/__init__.py`, `xandikos/webdav.py`) -/\n"
+        f"def exception_bases : List (String × String) := {t2(bases)}\n\n"
+        "/-- `web.ObjectResource.set_body`: (caught, raised instead, precondition) in the order of the except clauses -/\n"
+        f"def set_body_raises : List (String × String × String) := {t3(inner_set)}\n\n"
+        "/-- `web.StoreBasedCollection.create_member` -/\n"
+        f"def create_member_raises : List (String × String × String) := {t3(inner_create)}\n\n"
+        "/-- `webdav.PutMethod.handle`, update of an existing member: (caught, answer); `dav412` is the 207 that wraps\n"
+        "    412 with `e.precondition` as its error element -/\n"
+        f"def put_update_answers : List (String × String) := {t2(outer_update)}\n\n"
+        "/-- `webdav.PutMethod.handle`, creation of a member -/\n"
+        f"def put_create_answers : List (String × String) := {t2(outer_create)}\n\n"
+        "/-- `webdav.PostMethod.handle` -/\n"
+        f"def post_answers : List (String × String) := {t2(outer_post)}\n")
+
+
 SCAN_SPECS = [
     dict(module="Unescape", file="xandikos/icalendar.py", func="_unescape_text", lean="unescape_text",
          params=[("text", "str"), ("split", "bool")], returns="strlist",
@@ -1353,6 +1463,10 @@ def generate(repo=REPO, out_dir=GEN_DIR):
         mods["Multiget"] = [({"func": "_get_resources_by_hrefs"}, translate_resources_by_hrefs(repo), None)]
     except (Untranslatable, SyntaxError, KeyError, IndexError, AttributeError, StopIteration) as e:
         mods["Multiget"] = [({"func": "_get_resources_by_hrefs"}, None, f"{type(e).__name__}: {e}")]
+    try:
+        mods["ExcTables"] = [({"func": "exception tables"}, translate_exception_tables(repo), None)]
+    except (Untranslatable, SyntaxError, KeyError, IndexError, AttributeError, StopIteration) as e:
+        mods["ExcTables"] = [({"func": "exception tables"}, None, f"{type(e).__name__}: {e}")]
     mods["Gates"] = []
     for g in GATES:
         try:
